@@ -6,6 +6,7 @@
 //! call would resolve to the trait and the check would compare a facade with itself.
 #![allow(clippy::all)]
 
+use num_bigint::BigUint;
 use ruint::{Bits, Uint};
 use std::panic::{catch_unwind, AssertUnwindSafe};
 use subtle::{Choice, ConditionallyNegatable, ConditionallySelectable, ConstantTimeEq, ConstantTimeGreater, ConstantTimeLess};
@@ -332,6 +333,30 @@ fn c20(r: &Runner) {
                 }
             }
         });
+        // neighbouring Fibonacci numbers (and common multiples): the slowest inputs of Euclid's algorithm - a one-word fast
+        // path with a step bound is sized against them (F(93) / F(92) needs 91 division steps)
+        if bits >= 8 {
+            let mut fib: Vec<BigUint> = vec![BigUint::from(1u32), BigUint::from(1u32)];
+            while fib[fib.len() - 1].bits() as usize <= bits.min(130) {
+                let nx = &fib[fib.len() - 1] + &fib[fib.len() - 2];
+                fib.push(nx);
+            }
+            fib.pop();
+            r.universe(&format!("neighbouring Fibonacci numbers up to {} bits and their multiples by 1, 2, 6: gcd facades", bits.min(130)), bits, fib.len().saturating_sub(1), |i, l| {
+                for mul in [1u32, 2, 6] {
+                    let (a, b) = (&fib[i] * mul, &fib[i + 1] * mul);
+                    if b.bits() as usize > bits {
+                        continue;
+                    }
+                    let (av, bv) = (V::U(to_limbs(&a, bits)), V::U(to_limbs(&b, bits)));
+                    l.states(1);
+                    for &op in &[Op::ni_gcd, Op::x_ni_lcm, Op::x_ni_gcd_lcm, Op::ni_extended_gcd, Op::ni_div_rem] {
+                        exec(l, bits, op, &[av.clone(), bv.clone()]);
+                        exec(l, bits, op, &[bv.clone(), av.clone()]);
+                    }
+                }
+            });
+        }
         // exact multiples (and their neighbours) of ordinary one-limb divisors, with zero limbs in every position
         let em = exact_multiples(bits, ORDINARY_DIVISORS);
         if !em.is_empty() {
